@@ -230,6 +230,12 @@ G12_mesh = [
     r('Mesh3D._tri_centroid', [TLst(P3)], name='Mesh3D__tri_centroid'),
     r('Mesh3D._quad_centroid', [TLst(P3)], name='Mesh3D__quad_centroid'),
     r('Mesh2D._quad_to_triangles', [TLst(P2)], name='Mesh2D__quad_to_triangles'),
+    r('Sphere.area', [SPH], name='Sphere_area'), r('Sphere.volume', [SPH], name='Sphere_volume'),
+    r('Cylinder.height', [CYL], name='Cylinder_height'), r('Cylinder.area', [CYL], name='Cylinder_area'),
+    r('Cylinder.volume', [CYL], name='Cylinder_volume'),
+    r('Cone.height', [CONE], name='Cone_height'), r('Cone.radius', [CONE], name='Cone_radius'),
+    r('Cone.slant_height', [CONE], name='Cone_slant_height'), r('Cone.area', [CONE], name='Cone_area'),
+    r('Cone.volume', [CONE], name='Cone_volume'),
     r('Mesh2D.join_meshes', [TLst(O('Mesh2D'))], name='Mesh2D_join_meshes'),
     r('Mesh3D.join_meshes', [TLst(O('Mesh3D'))], name='Mesh3D_join_meshes'),
     r('Mesh3D.remove_faces_only', [O('Mesh3D'), TLst(B)], name='Mesh3D_remove_faces_only'),
